@@ -401,9 +401,10 @@ pub fn run(ctx: &Ctx) {
             let rp = crate::props::c06::rpool(3);
             (0..n).map(|i| rp[i % rp.len()].real).collect()
         };
-        for shape in 0..6u8 {
+        for shape in 0..8u8 {
         let shape_name = ["EdwardsPoint::multiscalar_mul(&scalars)", "EdwardsPoint::multiscalar_mul(scalars by value)", "RistrettoPoint::multiscalar_mul(&scalars)", "RistrettoPoint::multiscalar_mul(scalars by value)",
-            "EdwardsPoint::multiscalar_mul(iterators with an inexact size hint)", "RistrettoPoint::multiscalar_mul(iterators with an inexact size hint)"][shape as usize];
+            "EdwardsPoint::multiscalar_mul(iterators with an inexact size hint)", "RistrettoPoint::multiscalar_mul(iterators with an inexact size hint)",
+            "EdwardsPoint::multiscalar_mul(points iterator panics on its last item)", "RistrettoPoint::multiscalar_mul(points iterator panics on its last item)"][shape as usize];
         let mut logs: Vec<Vec<Freed>> = Vec::new();
         for v in &vecs {
             ctx.eval(1);
@@ -419,10 +420,25 @@ pub fn run(ctx: &Ctx) {
                 // filtered iterators report (0, Some(n)): the front end refuses them with an assertion before doing any
                 // secret-dependent work; if a version of it goes ahead instead, what it frees is judged like the rest
                 4 => EdwardsPoint::multiscalar_mul(scalars.iter().filter(|_| std::hint::black_box(true)), points.iter().filter(|_| std::hint::black_box(true))).compress().0,
-                _ => RistrettoPoint::multiscalar_mul(scalars.iter().filter(|_| std::hint::black_box(true)), rpoints.iter().filter(|_| std::hint::black_box(true))).compress().0,
+                5 => RistrettoPoint::multiscalar_mul(scalars.iter().filter(|_| std::hint::black_box(true)), rpoints.iter().filter(|_| std::hint::black_box(true))).compress().0,
+                // an exact-size points iterator whose last item panics (a caller decoding points lazily and unwrapping):
+                // whatever holds secret digits at that moment must still be wiped while the stack unwinds
+                6 => EdwardsPoint::multiscalar_mul(scalars.iter(), points.iter().enumerate().map(|(i, p)| if i + 1 == n { panic!("caller's iterator panics") } else { *p })).compress().0,
+                _ => RistrettoPoint::multiscalar_mul(scalars.iter(), rpoints.iter().enumerate().map(|(i, p)| if i + 1 == n { panic!("caller's iterator panics") } else { *p })).compress().0,
             })) {
-                Err(_) if shape >= 4 => {
+                Err(_) if shape == 4 || shape == 5 => {
                     ctx.count("inexact_size_hint_refused_by_assertion", 1);
+                }
+                Err(_) if shape >= 6 && n > 0 => {
+                    ctx.count("calls_unwound_by_a_panicking_points_iterator", 1);
+                    let log = crate::heap::take_log();
+                    for (i, s) in scalars.iter().enumerate() {
+                        let digits: Vec<u8> = curve25519_dalek::verif::as_radix_16(s).iter().map(|d| *d as u8).collect();
+                        if let Some((bi, off)) = find_leak(&log, &digits, 16).or_else(|| find_leak(&log, s.as_bytes(), 8)) {
+                            ctx.violation("heap.multiscalar_mul.unwind", &format!("while unwinding from a panic in the caller's points iterator, a block of {} bytes holding digits/bytes of secret scalar {} (offset {}) was freed unwiped", log[bi].size, i, off), case.clone());
+                            break;
+                        }
+                    }
                 }
                 Err(e) => ctx.violation("heap.multiscalar_mul", &format!("panic: {}", e), case),
                 Ok((res, log)) => {
